@@ -480,7 +480,7 @@ GLOBS = ["'['", "'[!'", "'[]'", "'[z-a]'", "'**'", "'***'", "'[[]'", "'" + '*' *
          "'" + '[a-z]' * 100 + "'", "'\u00e9*'", "'**x'", "'x**'", "'//'", "'[^a]'", "'*' '*'"]
 # file names / strings
 ODD_STRINGS = ["''", '""', "'a b'", "'a/b/c/d'", "'" + 'n' * 300 + "'", "'\u00e9\u00f6'", 'a#b', "'#'", "a'b'\"c\"",
-               '@[EXACTLY_ACT]@', '@[EXACTLY_HOME]@/data.txt', '@[ S_STR ]@', '@[S_STR]@@[S_STR]@', "'@[S_STR]@'",
+               '@[EXACTLY_TMP]@', '@[EXACTLY_HOME]@/data.txt', '@[ S_STR ]@', '@[S_STR]@@[S_STR]@', "'@[S_STR]@'",
                '"@[UNDEFINED_SYMBOL]@"', '-', '--', "'-rel-act'", 'a\\b', "'${HOME}'", "'*'", "'a:b'", 'a=b', '=x',
                "sub/", "'sub/../x'", "x/", "':'", "'!'"]
 
